@@ -16,7 +16,7 @@ func init() {
 			"NOT decided: escaping/unicode/float text round trip (value-level), what the points writer does with accepted rows.",
 		Assumptions: commonAssumptions,
 		Technique:   "static analysis: conversion lint over typed expressions, dominance of validity guards, error-flow chain checks on go/cfg, must-precede cuts",
-		Rules:       "C06.R1 R2 R3 R4 R5",
+		Rules:       "C06.R1 R2 R3 R4 R5 R6",
 	}
 }
 
@@ -107,6 +107,27 @@ func c06(c *an.Ctx) {
 				arg := f.Canon(cs.Call.Args[0])
 				one := &an.Sites{F: f, Desc: "ParseBestEffort(" + arg + ")", List: []an.Site{{V: vid, Node: cs.Call}}}
 				f.Guarded(r, one, "ParseBestEffort("+arg+") only after IsValidNumber of the same text", an.AtomIs("influx.IsValidNumber("+arg+")", true))
+				// the grammar accepts texts whose value is out of range (1e999): the parsed value becomes a
+				// field value only after it was tested to be finite
+				var resObj types.Object
+				if as, ok := f.G.Vs[vid].Node.(*ast.AssignStmt); ok && len(as.Lhs) == 1 {
+					resObj = refObjOf(f, as.Lhs[0])
+				}
+				rets := f.Find(an.MReturn("of the parsed float", func(g *an.Fn, rs *ast.ReturnStmt) bool {
+					if len(rs.Results) == 0 {
+						return false
+					}
+					if ast.Unparen(rs.Results[0]) == ast.Expr(cs.Call) {
+						return true
+					}
+					return resObj != nil && refObjOf(g, rs.Results[0]) == resObj
+				}))
+				if rets.Len() == 0 {
+					r.Fail(f.Name+": parsed value not returned", c.P.Pos(cs.Call.Pos()), "the value of ParseBestEffort(%s) is not returned as the field value: rule instance needs review", arg)
+					continue
+				}
+				f.Guarded(r, rets, "ParseBestEffort("+arg+") becomes a field value only if it is not NaN", an.AtomLike(`^math\.IsNaN\(.*\)$`, false))
+				f.Guarded(r, rets, "ParseBestEffort("+arg+") becomes a field value only if it is finite", an.AtomLike(`^math\.IsInf\(.*,0\)$`, false))
 			}
 			r.AddSites(n)
 			r.Floor(2, "ParseBestEffort sites on the write path")
@@ -253,4 +274,73 @@ func c06(c *an.Ctx) {
 			}
 		}
 	}
+	// ---------------------------------------------------------------- R6
+	{
+		// A row whose fields clash with the measurement's schema is written without the clashing fields
+		// (the client gets a partial-write error).  The positions to drop are computed on the original
+		// row; deleting them one by one IN PLACE shifts every later position, so positions taken from the
+		// list unadjusted delete the wrong fields: a clashing value reaches the store, a valid one is lost.
+		r := c.Rule("C06.R6", "K-IDIOM", "coordinator: positions collected on the original row are never used unadjusted for repeated in-place deletion")
+		n := 0
+		for _, d := range c.P.AllDecls() {
+			if !an.InPkg(d, "coordinator") {
+				continue
+			}
+			n++
+			for _, bad := range staleIndexDeletes(d.Decl.Body) {
+				r.Fail(d.Name()+": in-place deletion at positions of the original list", c.P.Pos(bad.Pos()), "%s deletes elements in place inside a loop over a list of positions and uses each position as it was computed before the earlier deletions: from the second deletion on the wrong element is removed", d.Name())
+			}
+		}
+		r.AddSites(n)
+		r.Floor(100, "functions of package coordinator")
+	}
+}
+
+// staleIndexDeletes finds, inside `for _, i := range positions`, an in-place deletion
+// `copy(x[i:], x[i+1:])` or `x = append(x[:i], x[i+1:]...)` that uses the ranged value i itself.
+func staleIndexDeletes(body *ast.BlockStmt) []ast.Node {
+	var out []ast.Node
+	name := func(e ast.Expr) string {
+		if id, ok := ast.Unparen(e).(*ast.Ident); ok {
+			return id.Name
+		}
+		return ""
+	}
+	isDel := func(ce *ast.CallExpr, i string) bool {
+		fn := name(ce.Fun)
+		if (fn != "copy" && fn != "append") || len(ce.Args) != 2 {
+			return false
+		}
+		a, ok1 := ast.Unparen(ce.Args[0]).(*ast.SliceExpr)
+		b, ok2 := ast.Unparen(ce.Args[1]).(*ast.SliceExpr)
+		if !ok1 || !ok2 || types.ExprString(a.X) != types.ExprString(b.X) || b.Low == nil {
+			return false
+		}
+		be, ok := ast.Unparen(b.Low).(*ast.BinaryExpr)
+		if !ok || be.Op.String() != "+" || name(be.X) != i {
+			return false
+		}
+		if fn == "copy" {
+			return a.Low != nil && name(a.Low) == i
+		}
+		return a.High != nil && name(a.High) == i
+	}
+	ast.Inspect(body, func(m ast.Node) bool {
+		rs, ok := m.(*ast.RangeStmt)
+		if !ok || rs.Value == nil {
+			return true
+		}
+		i := name(rs.Value)
+		if i == "" || i == "_" {
+			return true
+		}
+		ast.Inspect(rs.Body, func(k ast.Node) bool {
+			if ce, ok := k.(*ast.CallExpr); ok && isDel(ce, i) {
+				out = append(out, ce)
+			}
+			return true
+		})
+		return true
+	})
+	return out
 }
